@@ -770,10 +770,44 @@ fn eval_case(c: &Case) -> Option<String> {
     eval(c)
 }
 
+// ---------- trace: replay of the cases of vf/mkexec.py on the REAL crate (translation validation of the extraction); the constructor table
+// mirrors KINDS/INNERS of vf/mkexec.py
+fn trace_inner(inner: &str) -> Dyn { match inner { "echo" => echo(), "sma" => d(Sma::new(Echo::new(), 2)), "ema" => d(Ema::new(Echo::new(), 3)), _ => panic!("inner") } }
+fn trace_make(kind: &str, inner: &str, n: usize) -> Dyn {
+    let i = trace_inner(inner);
+    let sma2 = || Sma::new(Echo::<f64>::new(), 2);
+    match kind {
+        "laguerre_filter" => d(LaguerreFilter::new(i, 0.5 + 0.05 * (n as f64))),
+        "roofing_filter" => d(RoofingFilter::new(i, n, n)),
+        "eft" => d(EhlersFisherTransform::new(i, sma2(), n)), "pfe" => d(PolarizedFractalEfficiency::new(i, sma2(), n)),
+        "add" => Dyn(Box::new(NoCl(Add::new(i, sma2())))), "subtract" => d(Subtract::new(i, sma2())), "multiply" => d(Multiply::new(i, sma2())),
+        "divide" => d(Divide::new(i, Constant::new(4.0))),
+        "default_drawdown" => d(<Drawdown<f64, Echo<f64>> as Default>::default()), "default_ln_return" => d(<LnReturn<f64, Echo<f64>> as Default>::default()),
+        "default_welford_rolling" => d(<WelfordRolling<f64, Echo<f64>> as Default>::default()),
+        k => make(k, i, n),
+    }
+}
+fn trace(path: &str) {
+    let show = |o: Option<f64>| match o { Some(x) => format!("{:016x}", x.to_bits()), None => "-".to_string() };
+    for line in std::fs::read_to_string(path).unwrap().lines() {
+        let f: Vec<&str> = line.split_whitespace().collect();
+        if f.len() < 4 { continue; }
+        let (kind, inner, n, cut) = (f[0], f[1], f[2].parse::<usize>().unwrap(), f[3].parse::<usize>().unwrap());
+        let xs: Vec<f64> = f[4..].iter().map(|h| f64::from_bits(u64::from_str_radix(h, 16).unwrap())).collect();
+        let r = catch_unwind(AssertUnwindSafe(|| {
+            let mut v = trace_make(kind, inner, n);
+            let mut out = vec![show(v.last())];
+            for (t, x) in xs.iter().enumerate() { v.update(*x); out.push(show(v.last())); if kind != "add" && t == cut { let c = v.clone(); v = c; } }
+            out.join(" ") }));
+        println!("{}", r.unwrap_or_else(|_| "PANIC".to_string()));
+    }
+}
+
 fn main() {
     let args: Vec<String> = std::env::args().collect();
     std::panic::set_hook(Box::new(|_| {}));
     match args.get(1).map(|s| s.as_str()) {
+        Some("trace") => trace(&args[2]),
         Some("search") => {
             let prop = args[2].clone();
             let get = |k: &str| args.iter().position(|a| a == k).and_then(|i| args.get(i + 1)).cloned();
